@@ -17,8 +17,9 @@ CONSTANTS
   Weak_NoWitnessNeeded = FALSE
   Weak_BackwardsUnbound = TRUE
   Weak_ReplacementHashUnchecked = FALSE
+  Weak_PromotedWitnessStays = FALSE
 INIT Init
 NEXT Next
-INVARIANTS TrustRootOnly StoreSound WitnessConfirmed NoConfirmationFromSilence AttackReported AttackStoresNothing StoreMonotone
+INVARIANTS TrustRootOnly StoreSound WitnessConfirmed IndependentWitness NoConfirmationFromSilence AttackReported AttackStoresNothing StoreMonotone
 VIEW CView
 CHECK_DEADLOCK FALSE
